@@ -851,8 +851,8 @@ func (m *SendExpandedTx) Deserialize(r io.Reader) error {
 		return errors.Wrap(err, "tx size")
 	}
 
-	script := make(bitcoin.Script, txSize)
-	if _, err := io.ReadFull(r, script); err != nil {
+	script, err := readBytes(r, txSize)
+	if err != nil {
 		return errors.Wrap(err, "script")
 	}
 
@@ -918,8 +918,8 @@ func (m *SaveTxs) Deserialize(r io.Reader) error {
 		return errors.Wrap(err, "tx size")
 	}
 
-	script := make(bitcoin.Script, txsSize)
-	if _, err := io.ReadFull(r, script); err != nil {
+	script, err := readBytes(r, txsSize)
+	if err != nil {
 		return errors.Wrap(err, "script")
 	}
 
